@@ -3,6 +3,8 @@ from checks._simple import run_simple
 
 
 def run(tier, seed):
-    return run_simple("C19", tier, seed, "checks.c19_bounded", [],
+    return run_simple("C19", tier, seed, "checks.c19_bounded",
+                      ["cascade.low.builders:TaskBuilder.with_values", "cascade.low.builders:JobBuilder.with_node", "cascade.low.builders:JobBuilder.with_edge",
+                       "cascade.low.builders:JobBuilder.build.<locals>.get_edge_errors"],
                       explanation="real library code on exhaustively enumerated programs / builder inputs",
                       assumptions=["pydantic model_copy / pyrsistent persistent structures behave as documented", "sha256 is collision free on the names compared"])
